@@ -136,7 +136,10 @@ class RemoteCopyUnslicer(slicer.BaseUnslicer):
         assert not isinstance(obj, defer.Deferred)
         assert ready_deferred is None
         if self.attrname == None:
-            attrname = six.ensure_str(obj)
+            try:
+                attrname = six.ensure_str(obj)
+            except UnicodeDecodeError:
+                raise Violation("attribute name is not UTF-8")
             if attrname in self.d:
                 raise BananaError("duplicate attribute name '%s'" % attrname)
             s = self.schema
